@@ -247,15 +247,22 @@ func (g *gen) program() []call {
 		// is left out here (and counted) so that the programs stay replayable on all back-ends
 		if cl.style.HasStroke() {
 			st := cl.style
+			var outline *canvas.Path
 			if msg := hc.Try(func() {
 				p := cl.path
 				if st.IsDashed() {
 					o, d := canvas.ScaleDash(st.StrokeWidth, st.DashOffset, st.Dashes)
 					p = p.Dash(o, d...)
 				}
-				p.Stroke(st.StrokeWidth, st.StrokeCapper, st.StrokeJoiner, canvas.Tolerance)
+				outline = p.Stroke(st.StrokeWidth, st.StrokeCapper, st.StrokeJoiner, canvas.Tolerance)
 			}); msg != "" {
 				c.Count("skip:Dash/Stroke-panics(C04/C05)")
+				continue
+			}
+			// a stroke whose outline is empty (the whole path lies in a gap of the width-scaled dash pattern): the
+			// outline fallback has nothing to draw; exercised by a targeted probe, not by the random programs
+			if outline.Empty() {
+				c.Count("skip:empty-stroke-outline")
 				continue
 			}
 		}
@@ -635,7 +642,7 @@ func countBranches(c *hc.Ctx, cl call) {
 		b = "fill-only"
 	case hs && native && !hf:
 		b = "stroke-only-native"
-	case hs && native && hf && s.Fill.IsColor() && s.Stroke.IsColor() && s.Fill.Color.A == s.Stroke.Color.A:
+	case hs && native && hf && s.Fill.IsColor() && s.Stroke.IsColor() && s.Fill.Color.A == 255 && s.Stroke.Color.A == 255:
 		b = "fill+stroke-one-operator"
 	case hs && native && hf:
 		b = "fill-then-stroke"
